@@ -434,6 +434,7 @@ def nodes_are_never_copied(ctx):
     """an IR node is its identity: the declaration-once counters, the read counter that decides raw use / DUP(), the unique name.  A copy of a
     node is a second node for the same C variable (declared twice, or consumed raw twice).  Only type objects are copied."""
     idx = get_index(ctx.env)
+    node_classes = set(idx.subclasses("Pure")) | set(idx.subclasses("Effect"))
     bad = []
     n = 0
     for q, fi in sorted(idx.funcs.items()):
@@ -448,7 +449,12 @@ def nodes_are_never_copied(ctx):
             arg = U(c.args[0])
             params = {a.arg: U(a.annotation) if a.annotation is not None else "" for a in fi.node.args.args}
             type_like = "type" in arg.lower() or params.get(arg, "") in ("ValueType",) or fi.module.endswith("ValueType") and params.get(arg, "x") in ("ValueType", "")
-            if not type_like:
+            # what is copied is a node when the expression says so: an element of the callback's items, an operand field of a node, an
+            # entry of the parameter / operand tables, or a name annotated with a node class (copies of plain lists, dicts, strings pass)
+            ann = params.get(arg, "")
+            node_like = any(k in arg for k in ("items[", ".src", ".dest", ".ops[", "parameters[", "read_ops[", "exec_ops[", "write_ops[", ".va", ".data_var", ".control", ".compound")) \
+                or ann in node_classes or arg in ("op", "hybrid", "pure", "effect", "assignment", "assig", "inner", "then_p", "else_p")
+            if node_like and not type_like:
                 bad.append(f"{q}:{c.lineno} {U(c)[:50]}")
     ctx.check("copy / deepcopy is applied to type objects only, never to an IR node", not bad, "nodes are shared by identity", "; ".join(bad[:3]) or f"{n} copies, all of type objects", "rzilcompiler/")
 
